@@ -357,6 +357,9 @@ def lattice_margin(shape):
 
 def exec_tm(case, obs):
     shape, ranking, k_supra, diam, numbering, order, source, seed = case
+    layout = "C"
+    if "|" in source:
+        source, layout = source.split("|")
     nvox = int(np.prod(shape))
     vals = tm_scores(nvox, seed)
     thr = tm_threshold(vals, k_supra)
@@ -374,8 +377,31 @@ def exec_tm(case, obs):
     else:
         alist_arg = alist.copy()
     cls_ang = f"{source}-list-{order}"
+    # how the two maps reach the function: as C-ordered arrays (default), Fortran-ordered arrays, non-contiguous views,
+    # or as files (the usual way; cryomap.read returns a transposed, i.e. Fortran-ordered, view of the file buffer)
+    s_arg, a_arg = scores.copy(), amap.copy()
+    if layout == "F":
+        s_arg, a_arg = np.asfortranarray(s_arg), np.asfortranarray(a_arg)
+    elif layout == "view":
+        big_s = np.zeros(tuple(2 * d for d in shape), dtype=np.float64) - 9.0
+        big_a = np.zeros(tuple(2 * d for d in shape), dtype=np.float64)
+        big_s[::2, ::2, ::2] = scores
+        big_a[::2, ::2, ::2] = amap
+        s_arg, a_arg = big_s[::2, ::2, ::2], big_a[::2, ::2, ::2]
+    elif layout == "em":
+        from ..oracles import emfmt
+        emfmt.write("c07_scores.em", scores.astype(np.float32))
+        emfmt.write("c07_angles.em", amap.astype(np.float32))
+        s_arg, a_arg = "c07_scores.em", "c07_angles.em"
+        scores = scores.astype(np.float32).astype(np.float64)
+    elif layout == "mrc":
+        from ..oracles import mrcfmt
+        mrcfmt.write("c07_scores.mrc", scores.astype(np.float32))
+        mrcfmt.write("c07_angles.mrc", amap.astype(np.float32))
+        s_arg, a_arg = "c07_scores.mrc", "c07_angles.mrc"
+        scores = scores.astype(np.float32).astype(np.float64)
     with quiet():
-        res = obs.lib(SITE_TM, tmana.scores_extract_particles, scores.copy(), amap.copy(), alist_arg, 7, diam,
+        res = obs.lib(SITE_TM, tmana.scores_extract_particles, s_arg, a_arg, alist_arg, 7, diam,
                       scores_threshold=thr, angles_order=order, angles_numbering=numbering)
     voxels = list(itertools.product(*(range(s) for s in shape)))
     flat = {v: i for i, v in enumerate(voxels)}
@@ -505,6 +531,11 @@ def families(tier, seed):
     fams.append(tm_family("tm-5x4x3",
                           Mapped(Product(lat, (60, 50, 30, 10, 1, 0), DIAMETERS, ang_cfg), lambda c: (big, c[0], c[1], c[2]) + tuple(c[3])),
                           seed, tm_core + ("no-peak-without-supra-voxel",)))
+    layouts = ["array|F", "array|view", "array|em", "array|mrc"]
+    fams.append(tm_family("tm-map-layouts",
+                          Union(Mapped(Product(lat, (60, 30, 10, 1), (1.2, 2.5), (0, 1), layouts), lambda c: (big, c[0], c[1], c[2], c[3], "zxz", c[4])),
+                                Mapped(Product(perms6, (4,), (1.2,), layouts), lambda c: ((3, 2, 1), c[0], c[1], c[2], 0, "zxz", c[3]))),
+                          seed, tm_core))
     if thorough:
         perms8 = Listed(itertools.permutations(range(8)))
         fams.append(tm_family("tm-suppress-2x2x2",
